@@ -92,6 +92,50 @@ impl RistrettoPoint {
     pub fn mul_base(scalar: &Scalar) -> Self {
         &crate::constants::RISTRETTO_BASEPOINT_POINT * scalar
     }
+    /// a*A + b*B (B the basepoint)
+    pub fn vartime_double_scalar_mul_basepoint(a: &Scalar, big_a: &RistrettoPoint, b: &Scalar) -> RistrettoPoint {
+        &(big_a * a) + &(&crate::constants::RISTRETTO_BASEPOINT_POINT * b)
+    }
+    /// compress(2P) for every P
+    pub fn double_and_compress_batch<'a, I>(points: I) -> Vec<CompressedRistretto>
+    where I: IntoIterator<Item = &'a RistrettoPoint> {
+        points.into_iter().map(|p| (p + p).compress()).collect()
+    }
+    pub fn random<R: rand_core::CryptoRngCore + ?Sized>(rng: &mut R) -> Self {
+        let mut uniform_bytes = [0u8; 64];
+        rng.fill_bytes(&mut uniform_bytes);
+        RistrettoPoint::from_uniform_bytes(&uniform_bytes)
+    }
+}
+
+/// MODEL of the precomputed basepoint table: multiplication by it is multiplication of the basepoint
+#[derive(Copy, Clone, Debug)]
+pub struct RistrettoBasepointTable;
+impl crate::traits::BasepointTable for RistrettoBasepointTable {
+    type Point = RistrettoPoint;
+}
+impl RistrettoBasepointTable {
+    pub fn create(_basepoint: &RistrettoPoint) -> RistrettoBasepointTable {
+        RistrettoBasepointTable
+    }
+    pub fn basepoint(&self) -> RistrettoPoint {
+        crate::constants::RISTRETTO_BASEPOINT_POINT
+    }
+    pub fn mul_base(&self, scalar: &Scalar) -> RistrettoPoint {
+        RistrettoPoint::mul_base(scalar)
+    }
+}
+impl<'a, 'b> Mul<&'b Scalar> for &'a RistrettoBasepointTable {
+    type Output = RistrettoPoint;
+    fn mul(self, s: &'b Scalar) -> RistrettoPoint {
+        RistrettoPoint::mul_base(s)
+    }
+}
+impl<'a, 'b> Mul<&'a RistrettoBasepointTable> for &'b Scalar {
+    type Output = RistrettoPoint;
+    fn mul(self, _t: &'a RistrettoBasepointTable) -> RistrettoPoint {
+        RistrettoPoint::mul_base(self)
+    }
 }
 impl Debug for RistrettoPoint {
     fn fmt(&self, f: &mut core::fmt::Formatter<'_>) -> core::fmt::Result {
